@@ -5,6 +5,8 @@ package mdrv
 import (
 	"fmt"
 	"io"
+	"os"
+	"path/filepath"
 	"sort"
 	"strings"
 
@@ -42,6 +44,8 @@ type Scenario struct {
 	Cycles     []int
 	Faults     bool // C13: errors are expected when a fault was injected
 	Continue   bool // after a failing call the cycle is abandoned, the sorter cleared and the next cycle run (C13: a failure in a later cycle must surface as well)
+	AutoClear  bool // the sorter clears itself when a drain reaches io.EOF; no explicit Clear between cycles
+	Residue    bool // C13: the sorter lives in a directory of its own; after a last cycle that was drained to io.EOF under AutoClear no run file may be left, whatever failed before
 	After      int  // > 0: another sorter with this (larger) chunk size is used for one in-memory cycle and cleaned up first
 }
 
@@ -60,6 +64,12 @@ func (s Scenario) Name() string {
 	}
 	if s.Continue {
 		after += "-continue"
+	}
+	if s.AutoClear {
+		after += "-autoclear"
+	}
+	if s.Residue {
+		after += "-residue"
 	}
 	return fmt.Sprintf("sort-%s-chunk%d-push%s%s", mode, s.Chunk, strings.Join(cs, "+"), after)
 }
@@ -80,12 +90,25 @@ func Bad(r *vrt.Result) (string, string) {
 	return "", ""
 }
 
+func callList(cs []call) string {
+	var b strings.Builder
+	for _, c := range cs {
+		fmt.Fprintf(&b, "%d:%s", c.cycle, c.name)
+		if c.err != nil && c.err != io.EOF {
+			b.WriteString("!")
+		}
+		b.WriteByte(' ')
+	}
+	return b.String()
+}
+
 // Mk builds a fresh run of the scenario.
 func (s Scenario) Mk() vrt.Run {
 	var calls []call
 	var pulled [][]int
 	var pushed [][]int
 	var newErr error
+	residue := -1
 	cycle := 0
 	do := func(name string, f func() error) error {
 		c := call{cycle: cycle, name: name, start: vrt.Now()}
@@ -109,12 +132,18 @@ func (s Scenario) Mk() vrt.Run {
 				return
 			}
 		}
-		m, err := morass.New(IV(0), "vrt", "", s.Chunk, s.Concurrent)
+		parent := ""
+		if s.Residue {
+			parent, _ = os.MkdirTemp("", "mdrv-residue")
+			defer os.RemoveAll(parent)
+		}
+		m, err := morass.New(IV(0), "vrt", parent, s.Chunk, s.Concurrent)
 		if err != nil {
 			newErr = err
 			return
 		}
 		defer m.CleanUp()
+		m.AutoClear = s.AutoClear
 		base := 0
 		// one cycle; false when a call failed
 		run := func(ci, n int) bool {
@@ -152,7 +181,17 @@ func (s Scenario) Mk() vrt.Run {
 			if !ok && !s.Continue {
 				return
 			}
-			if ci < len(s.Cycles)-1 {
+			if ok && s.Residue && s.AutoClear && ci == len(s.Cycles)-1 {
+				// drained to io.EOF with AutoClear set: no run file is left, whatever happened in earlier cycles
+				residue = 0
+				if ds, err := os.ReadDir(parent); err == nil {
+					for _, d := range ds {
+						fs, _ := os.ReadDir(filepath.Join(parent, d.Name()))
+						residue += len(fs)
+					}
+				}
+			}
+			if ci < len(s.Cycles)-1 && !(s.AutoClear && ok) {
 				if do("Clear", func() error { return m.Clear() }) != nil {
 					return
 				}
@@ -178,6 +217,9 @@ func (s Scenario) Mk() vrt.Run {
 		}
 		if newErr != nil {
 			return "", "", "new-failed"
+		}
+		if residue > 0 {
+			return "residue/autoclear-files-left", fmt.Sprintf("the last cycle was drained to io.EOF with AutoClear set but %d run file(s) remain in the sorter's directory (calls: %s)", residue, callList(calls)), sig
 		}
 		if s.Continue {
 			// per cycle: a fault injected while the cycle's calls were running must surface in that cycle;
